@@ -8,6 +8,7 @@ import (
 	"net/http"
 	"strings"
 	"time"
+	"unicode/utf8"
 
 	"github.com/gobwas/ws"
 	"google.golang.org/genproto/googleapis/rpc/code"
@@ -409,7 +410,15 @@ func (m *Mux) serveHTTP(w http.ResponseWriter, r *http.Request) error {
 			// TODO: limit message size.
 
 			code := WSStatusCode(s.Code())
-			f := ws.NewCloseFrame(ws.NewCloseFrameBody(code, s.Message()))
+			msg := s.Message()
+			// A control frame carries at most 125 bytes, 2 for the code.
+			if n := 123; len(msg) > n {
+				for n > 0 && !utf8.RuneStart(msg[n]) {
+					n--
+				}
+				msg = msg[:n]
+			}
+			f := ws.NewCloseFrame(ws.NewCloseFrameBody(code, msg))
 			b, err := ws.CompileFrame(f)
 			if err != nil {
 				return err
